@@ -199,6 +199,7 @@ type clBuilder struct {
 	ts    int64
 	epoch uint64
 	batch int
+	skew  bool // timestamps may go back at an epoch bump (clock skew between leaders); C09 flavour only
 }
 
 func newCLBuilder() *clBuilder { return &clBuilder{ts: 1000, epoch: 1} }
@@ -223,8 +224,11 @@ func (b *clBuilder) build(specs []clMsgSpec) []*mMsg {
 	var out []*mMsg
 	for i, sp := range specs {
 		b.seq++
-		if sp.DT < 0 {
+		if sp.DT < 0 && !b.skew {
 			sp.DT = 0
+		}
+		if b.ts+sp.DT < 1 {
+			sp.DT = 1 - b.ts
 		}
 		b.ts += sp.DT
 		if sp.EB {
